@@ -119,14 +119,15 @@ family(
         _t('a', [P('x')]),
         _t('b', [], [('a', 'class')], ['a']),
         _t('m', [], [('a', 'class')], ['a'], kind='mem'),
+        _t('dd', [], [('a', 'class')], ['a'], kind='dir'),      # a directory result: <task>/<config name>/
     ],
     rcs={
         'model': dict(build='file', mounts=[dict(ns=None, values={'x': 1})]),
         'model.large': dict(build='file', mounts=[dict(ns=None, values={'x': 2})]),
         'model_x': dict(build='dict', mounts=[dict(ns=None, values={'x': 3})]),
-        'top1': dict(build='uses-common', mounts=[dict(ns=None, values={'x': 5}, tasks=['a', 'm'], cfg='common'),
+        'top1': dict(build='uses-common', mounts=[dict(ns=None, values={'x': 5}, tasks=['a', 'm', 'dd'], cfg='common'),
                                                   dict(ns=None, values={}, tasks=['b'])]),
-        'top2': dict(build='uses-common', mounts=[dict(ns=None, values={'x': 5}, tasks=['a', 'm'], cfg='common'),
+        'top2': dict(build='uses-common', mounts=[dict(ns=None, values={'x': 5}, tasks=['a', 'm', 'dd'], cfg='common'),
                                                   dict(ns=None, values={}, tasks=['b'])]),
         # two PARTS of one multi-config file (exp.yaml#small, exp.yaml#large): two configurations, two config names
         'exp#small': dict(build='multi-part', mounts=[dict(ns=None, values={'x': 7})]),
